@@ -305,3 +305,24 @@ def check(ctx):
                 ctx.ob("R13-f", f_, f"events of {q_} are set only by the peer's hand-over and the last close of the other side", ok, node=sets_[0],
                        by=(f_.qual,), detail="" if ok else f"{f_.qual} reads {q_} and sets events: tasks blocked there are released although the "
                                                           "other side still has open handles")
+
+    # ---- R13-g a receiver is skipped by send_nowait only if *it* is about to be cancelled (the verdict is about the snapshot's own task and
+    # scope): a healthy receiver that is dropped is never woken, not even by the close of the last sender (shared with C12/R12-h)
+    from .common import shared_rules
+    shared_rules(ctx, "c12", {"R12-h": "R13-g"})
+
+    # ---- R13-h a handle's share of the clone count is given back only by an explicit close (`close()`, `aclose()`, leaving the `with`
+    # block): nothing else in the module - a finaliser in particular, which also runs for objects that were never counted (copies) - calls
+    # `self.close()`; the finaliser only warns
+    n_cl = 0
+    for cls_ in ("MemoryObjectReceiveStream", "MemoryObjectSendStream"):
+        for nm_, f_ in ctx.repo.methods(cls_, MEM).items():
+            calls_ = [x for x in own_walk(f_.node) if isinstance(x, ast.Call) and norm(x.func) in ("self.close", "self.aclose")]
+            if not calls_:
+                continue
+            n_cl += 1
+            ok = nm_ in ("aclose", "__exit__", "__aexit__")
+            ctx.ob("R13-h", f_, f"{cls_}.{nm_} may close the handle", ok, node=calls_[0], by=(nm_,),
+                   detail="" if ok else f"{cls_}.{nm_} calls `{norm(calls_[0])}`: the clone count changes although nobody closed the handle "
+                                        "(a garbage-collected copy would end the stream for the live handles)")
+    ctx.floor("R13-h", "methods that close their own handle", n_cl, 4)
